@@ -151,7 +151,7 @@ def BAR(i):
 
 # --- free text for lyrics / dynamics / harmony / fingering columns ---------------------------------
 TEXT = ['la', 'word with space', 'a,b', 'qu"ote', '"quoted"', 'ñandú', '漢', 'f', '4c', 'C7', 'p', 'I', ' lead', 'trail ',
-        '-', '--', '|', '&amp;', 'x=1', '"lead', 'mid"dle"']
+        '-', '--', '|', '&amp;', 'x=1', '"lead', 'mid"dle"', 'see **ekern']
 LOOKALIKE = ['=foo', '=c', '.foo', '.ñ', '*clefG2x', '*clefG6', '*notatandem', '*r', '=1zz']
 BAD = {
     'unknown-character': ['4c€', '€', '4c\x01'],
@@ -159,7 +159,8 @@ BAD = {
     'truncated': ['4', '8.', '*clef', '*k[', '*M4/', '=:', '*xywh-01:10,20,30', '*xywh-01', '*MM', '*staff', '*>[A', '4c 4'],
     'trailing': ['4cU', '4c%', '=1zz', '*clefG2x', '4c 4eU', '.x'],
 }
-COMM = [V('!', 'FIELD_COMMENTS'), V('!x', 'FIELD_COMMENTS'), V('!LO:N:t=abc', 'FIELD_COMMENTS'), V('! spaced', 'FIELD_COMMENTS')]
+COMM = [V('!', 'FIELD_COMMENTS'), V('!x', 'FIELD_COMMENTS'), V('!LO:N:t=abc', 'FIELD_COMMENTS'), V('! spaced', 'FIELD_COMMENTS'),
+        V('!cf. the **ekern and **etext editions', 'FIELD_COMMENTS')]      # free text that mentions an extended header
 GCOMM = ['!!!COM: Bach', '!!plain', '!!plain', '!!!OTL: Title', '!!!COM: second', '!! spaced comment', '!!!end: 1', '!!!COM: Bach']
 
 
